@@ -450,6 +450,13 @@ pub fn run(ctx: &Ctx, rep: &mut Report) {
         if unhs(&m).as_deref() != Some(rs_src.as_str()) {
             rep.finding("model", "srcNumber", &input, &format!("rust={:?} model={:?}", rs_src, unhs(&m)), "c16.model.src-number");
         }
+        if x != 0.0 {
+            // the explicit hypothesis of the round-trip theorems (Props/C16.lean)
+            let m = model.ask(&format!("shortest-found {}", input));
+            if m != "t t" {
+                rep.finding("model", "assumption-ShortestFound", &input, &format!("shortest-found = {}", m), "c16.model.shortest-found");
+            }
+        }
         let m = model.ask(&format!("json-number {}", input));
         if unhs(&m).as_deref() != Some(jtext.as_str()) {
             rep.finding("model", "jsonNumber", &input, &format!("serde_json={:?} model={:?}", jtext, unhs(&m)), "c16.model.json-number");
